@@ -1,1 +1,6 @@
 import BU.Properties.C14
+#print axioms C14.magic_tie
+#print axioms C14.digest_eq_core
+#print axioms C14.verify_true_implies
+#print axioms C14.verify_header_window
+#print axioms C14.sign_verifies
